@@ -5,7 +5,7 @@ from . import common as C
 from . import server_family as SF, client_family as CF
 
 TMPL = CF.TMPL
-KEEP = {'Reset', 'SB', 'SE', 'RB', 'RE', 'CB', 'CE', 'Send', 'Final', 'Crash', 'Deadlock', 'Leak'}
+KEEP = {'Reset', 'SB', 'SE', 'RB', 'RE', 'CB', 'CE', 'Send', 'Final', 'Crash', 'Deadlock', 'Leak', 'BufferReused'}
 
 add_probes = SF.add_probes
 
